@@ -2,6 +2,7 @@
 from ..core import *
 from .. import harness, gen, pyref, coq, gadgets as G
 from ..curve import *
+from ..gen import R
 
 VO = ['Props/C15.vo']
 FILES = ['Props/C15.v', 'Props/C13.v']
@@ -24,6 +25,9 @@ def run_check(ctx):
         add('add', 'witness', '%s %s' % (E(c), E(pool.pick(rng)))); add('is_eq', 'witness', '%s %s' % (E(c), E(pool.pick(rng))))
         add('scalar_mul', 'witness', '%s %x' % (E(c), rng.bits(64)))
         add('new', 'input', E(c))
+    # setup mode (key generation: no assignment available) must produce the same system as proving mode
+    for (gadget, mode), ls in list(groups.items()):
+        for l in ls[:2]: groups[(gadget, mode)].append(l.replace('r1.shape ', 'r1.shape.setup ', 1))
     lines = [l for v in groups.values() for l in v]
     try:
         out = harness.run_script('ark', lines)
@@ -56,11 +60,40 @@ def run_check(ctx):
         if not ok:
             ctx.violation('public-input allocation of %s: %s; to_field_elements: %s; field encoding: %s' % (l2[i].split()[-1][:60], o2[i][:120], o2[i + 1], enc),
                           {'stage': 'enumeration', 'script': l2[i:i + 3], 'output': o2[i:i + 3]}, {'class': 'public_input'}, found_input=True)
-    ctx.cov['evaluations'] += len(lines) + len(l2); ctx.cov['distinct_nontrivial'] += len(set(lines))
+    # (c) the pinned Groth16 keys (tests/test_vectors): the seven circuits of tests/groth16_gadgets.rs (included verbatim by the
+    #     harness) are proved with the pinned proving key; the proof must verify under the pinned verifying key with the honest
+    #     public input and must be rejected for any other public input.  Witnesses: the structured values upstream never draws.
+    d0 = pool.derived[0] if pool.derived else pool.base[0]; b0 = pool.base[0]
+    els = [IDENT, T2REP, b0, d0] + ([pool.pick(rng) for _ in range(3 * scale)] if scale > 1 else [])
+    g16 = []
+    for c in els:
+        for circ in ('compression', 'decompression', 'public_element_input', 'negation'): g16.append(('g16.%s %s' % (circ, E(c)), 1))
+    for r0 in [0, 1, Q - 1] + [gen.rand_field(rng, Q) for _ in range(scale)]: g16.append(('g16.elligator %x' % r0, 1))
+    for k in [0, 1, R - 1, R, 2**256 - 1] + [rng.bits(256) for _ in range(scale)]: g16.append(('g16.discrete_log %s' % hexb(k), 1))
+    for a, b2 in [(IDENT, IDENT), (b0, b0), (b0, neg_pt(b0)), (T2REP, d0), (d0, b0)]: g16.append(('g16.add_assign_add %s %s' % (E(a), E(b2)), 1))
+    wrong = '%x' % gen.rand_field(rng, Q)
+    for circ, a in (('compression', E(b0)), ('decompression', E(b0)), ('public_element_input', E(d0)), ('negation', E(b0)), ('elligator', '5'), ('discrete_log', hexb(7))):
+        g16.append(('g16.%s %s pub=%s' % (circ, a, wrong), 0))
+    g16.append(('g16.add_assign_add %s %s pub=%s;%s' % (E(b0), E(d0), wrong, wrong), 0))
+    if ctx.tier == 'quick': g16 = [x for i, x in enumerate(g16) if i % 2 == 0 or x[1] == 0]
+    try:
+        o3 = harness.run_parallel('ark', [l for l, _ in g16], nproc=12, env={'H_OP_TIMEOUT_MS': '300000'})
+    except RuntimeError as e:
+        ctx.violation('harness failed: %s' % str(e)[:300], {'stage': 'build', 'log': str(e)[-3000:]}, {'stage': 'build'}, found_input=False); return
+    g16hist = {}
+    for (l, want), o in zip(g16, o3):
+        d = G.parse_r1(o); circ = l.split()[0]
+        g16hist[circ] = g16hist.get(circ, 0) + 1
+        good = d.get('proved') == '1' and d.get('verified') == str(want)
+        if not good:
+            what = ('a proof made with the pinned proving key is not accepted by the pinned verifying key' if want == 1 else 'a proof is accepted for a public input other than the honest one')
+            ctx.violation('%s: %s (%s)' % (l[:100], what, o[:80]), {'stage': 'enumeration', 'script': [l], 'output': [o]}, {'class': 'groth16', 'circuit': circ, 'want': want}, found_input=True)
+    ctx.extra['groth16'] = g16hist
+    ctx.cov['evaluations'] += len(lines) + len(l2) + len(g16); ctx.cov['distinct_nontrivial'] += len(set(lines)) + len(g16)
     ctx.cov['samples'] += [{'op': l[:120], 'output': res[l][:160]} for l in lines[:4]]
-    ctx.cov['rule'] = 'sha256 of to_matrices() + variable counts for every gadget and allocation mode over structured inputs (valid/invalid encodings, identity representatives, both coset members); public-input allocation vs to_field_elements vs field encoding'
+    ctx.cov['rule'] = 'sha256 of to_matrices() + variable counts for every gadget and allocation mode over structured inputs (valid/invalid encodings, identity representatives, both coset members); public-input allocation vs to_field_elements vs field encoding; setup-mode vs proving-mode digests; Groth16 prove/verify with the pinned keys on structured witnesses and wrong public inputs'
     if st['regen_ok'] and not st['make_ok'] and not ctx.violations:
         ctx.violation('C15 is no longer shown to hold — %s no longer checks (a witness value reaches control flow in a gadget source, or the lazy state machine changed); matrix digests are input-independent on every input tried' % st['bad_file'],
                       {'stage': 'proof', 'theorem_file': st['bad_file'], 'coq_log': st['make_log'][-3000:]}, {'stage': 'proof', 'file': st['bad_file']}, found_input=False)
-    ctx.assumptions += ['PARTIAL: the constraint matrices and Groth16 with the pinned keys are not modelled in Coq; matrix digests are enumerated on the implementation; the pinned-key round trip is exercised by the repository test tests/groth16_gadgets.rs',
+    ctx.assumptions += ['PARTIAL: the constraint matrices and Groth16 with the pinned keys are not modelled in Coq; matrix digests are enumerated on the implementation; the pinned-key round trip (prove with tests/test_vectors pk, verify with vk, reject other public inputs) is exercised on the implementation for the seven circuits with structured witnesses',
                         'translator/gadget_shape.py (static taint analysis of the gadget sources) is trusted', 'Coq kernel']
